@@ -95,8 +95,16 @@ def run(tier, repo=None, tag="repo"):
     configs = ["default", "serde"] + (["release"] if tier == "thorough" else [])
     for rid, text, floor in RULES:
         rep.rule(rid, text, floor)
-    for cfg in configs:
-        F = ir.load(cfg, repo, tag)
+    from extract import ExtractError
+    for cfg in list(configs):
+        try:
+            F = ir.load(cfg, repo, tag)
+        except ExtractError as e:
+            if cfg == "default":
+                raise
+            configs.remove(cfg)
+            rep.notes.append("configuration %s does not build; analysed the others (a serde build failure is reported by C06/C19)" % cfg)
+            continue
         apply(F, Sink(rep))
         rep.functions.update(f.path for f in F.fns)
     rep.configs = configs
